@@ -181,7 +181,7 @@ def answer (op : String) (args : List String) : String :=
     | some t => match Version.parse t with
       | .ok v => match Version.parse v.render with
         | .ok v' => s!"ok same={b01 (decide (v = v'))} fixed={b01 (decide (v'.render = v.render))}"
-        | .error e => "reparse-" ++ encodeKind e.kind
+        | .error e => s!"reparse-{encodeKind e.kind} printed_len={utf8Len v.render}"
       | .error _ => "perr"
     | none => "badreq"
   | "serdev", [t] =>
